@@ -31,6 +31,14 @@ Theorem C05_context : forall a fs,
   exists c, ctx_of (AJson (app_data a fs)) = Some c /\ GMap c = norm (captured a fs).
 Proof. exact context_equiv. Qed.
 
+(* the table regenerated from TCCResourceManager.BranchCommit / BranchRollback and the processors in the
+   CURRENT source (coq/Gen/TccTable.v): commit calls Commit with fence phase commit and maps success /
+   user error / unreadable data to committed / retryable / retryable, rollback likewise, the processors
+   stay silent exactly for the status an unknown resource gets, result codes failed = 0 / success = 1.
+   phase2 below is driven by that table. *)
+Theorem C05_table_recognised : table_expected = true.
+Proof. exact table_ok. Qed.
+
 Theorem C05_dispatch : forall reg q,
   (registered reg (q_resource q) = false -> phase2 reg q = []) /\
   (registered reg (q_resource q) = true ->
